@@ -213,3 +213,26 @@ Theorem C01_path_commit :
       Types.nr_mem (Types.ni_usage (snd n)) + mget p (fst n) * Types.rq_mem_req req.
 Proof. exact deploy_path_commit. Qed.
 Print Assumptions C01_path_commit.
+
+(* (d, cpu side): on every node that received instances the usage of every core grows by
+   exactly what the recorded workloads bind on it, as many workloads as planned are
+   recorded, and the node record stays valid (per-core usage <= capacity, memory <= capacity) *)
+Theorem C01_path_commit_cpu :
+  forall (sortf : list Schedule.keyed -> Types.outcome (list Schedule.keyed)),
+  (forall l, exists l', sortf l = Types.Ok l' /\ Permutation l' l) ->
+  forall base maxshare (raw req : Types.wreq) orders nodes caps morder status need limit s p n,
+  path_hyps sortf base maxshare raw req orders nodes caps morder status need limit ->
+  0 < base -> SchedCase.valid_node (snd n) = true -> NoDup (orders (fst n)) -> ~ In EmptyString (orders (fst n)) ->
+  deploy_path sortf base maxshare raw orders nodes morder status s need limit = PResult (Ok p) ->
+  In n nodes -> 1 <= mget p (fst n) ->
+  exists eps ws,
+    Calc.calculate_deploy_g sortf (snd n) base maxshare (mget p (fst n)) raw (orders (fst n)) (Schedule.default_fuel (snd n))
+      = Types.Ok (Datatypes.inr (eps, ws)) /\
+    node_after sortf base maxshare raw orders n (mget p (fst n)) = Some (Calc.commit_usage (snd n) ws) /\
+    length ws = Z.to_nat (mget p (fst n)) /\
+    (forall id, Types.lookup 0 (Types.nr_cpumap (Types.ni_usage (Calc.commit_usage (snd n) ws))) id =
+                Types.lookup 0 (Types.nr_cpumap (Types.ni_usage (snd n))) id
+                + SchedProofsFit.used (map Types.wr_cpumap ws) id) /\
+    Types.validate_ok (Calc.commit_usage (snd n) ws) = true.
+Proof. exact deploy_path_commit_cpu. Qed.
+Print Assumptions C01_path_commit_cpu.
